@@ -28,7 +28,7 @@ PROPS: dict[str, dict] = {
     "C03": {"modules": ["vf.h_ctrl"], "harnesses": ["ctrl-C03", "plan-step"]},
     "C04": {"modules": ["vf.h_ctrl"], "harnesses": ["ctrl-C04"]},
     "C17": {"modules": ["vf.h_wire", "vf.h_comms", "vf.h_wire2"], "harnesses": ["shm-wire-smt", "frame-sequences", "wire-pickle-json"]},
-    "C08": {"modules": ["vf.h_shm"], "harnesses": ["shm-step", "shm-server-dispatch", "shm-init"]},
+    "C08": {"modules": ["vf.h_shm"], "harnesses": ["shm-step", "shm-step-preempt", "shm-server-dispatch", "shm-init"]},
     "C09": {"modules": ["vf.h_shm", "vf.h_shmclient"], "harnesses": ["shm-step-bytes", "shm-evict-liveness", "shm-client-roundtrip"], "cpu_quick": 16 * 600.0},
 }
 
